@@ -9,6 +9,7 @@ IDS="${*:-$(ls seeded | grep -E '^C[0-9]+-[0-9]+$')}"
 SCR="$(mktemp -d /var/tmp/psv-seedmx-XXXXXX)"
 run_one() {
   id="$1"; prop="${id%%-*}"
+  if [ -f "seeded/$id/OBSOLETE" ]; then echo "$id obsolete (see seeded/$id/OBSOLETE)"; return; fi
   wt="$SCR/wt-$id"
   git -C /repo worktree add --detach "$wt" HEAD >/dev/null 2>&1 || { echo "$id worktree-failed"; return; }
   pf="seeded/$id/patch.diff"; [ -f "seeded/$id/patch_on_current_head.diff" ] && pf="seeded/$id/patch_on_current_head.diff"
